@@ -50,7 +50,7 @@ def compile_trs_unpacker_regex(
         rf"(?P<sec>{sec_rgx}"
         rf"|{err_sec}|{undef_sec})?"
     )
-    rgx = re.compile(pattern, re.VERBOSE)
+    rgx = re.compile(pattern, re.VERBOSE | re.IGNORECASE)
     return rgx
 
 
